@@ -527,3 +527,95 @@ Print Assumptions c02_write_back_legal_optimiser_moves.
 Print Assumptions c02_write_back_frame.
 Print Assumptions c02_write_back_twice.
 Print Assumptions c02_write_back_unplaced_refuted.
+
+(* ======================================================================================== *)
+(* C02 (and the C04 clause of detailed placement) for the CLOSED reordering pass: RowReordering with its enumeration
+   (coq/Reorder.v: regions of the window, region choice with the width test and the polarity test, every arrangement
+   `while (std::next_permutation(...))` visits, positions packed from minPos, writeback() = unplace every registered cell,
+   place() region by region along the predecessor chain).  Proofs: ReorderGeomProofs.v (row lists: unplacing = filtering,
+   slots, filling the regions), ReorderEnumProofs.v (what a leaf is), ReorderSearchProofs.v (the threaded search evaluates
+   exactly these leaves), ReorderProofs.v.  Tie: ./check C05 / C02 (checks/c05_reorder.py). *)
+Require Import CV.Hpwl CV.Optimiser CV.ShiftLp CV.DetailedValue CV.DetailedValueProofs CV.DetailedValueStepProofs.
+Require Import CV.Reorder CV.ReorderGeomProofs CV.ReorderEnumProofs CV.ReorderProofs.
+From Coq Require Import Permutation.
+
+(* [F] the row structure alone: for every legal row structure with unique cell indices and no unplaced cell, every window
+   of distinct cells, and ANY arrangement gps of the registered cells over the regions of the window (each cell once,
+   every non-empty arrangement within the width of its region): unplacing the registered cells and placing the
+   arrangement, packed from minPos along the predecessor chain, is accepted by every place() -- canPlace holds, nothing
+   throws -- and leaves no cell unplaced *)
+Theorem c02_reordering_write_back_accepted : forall d cs rgs gps,
+  Inv d -> NoDup (map p_id (cells_of d)) -> d_loose d = [] -> NoDup cs ->
+  regions_of d cs cs = Some rgs ->
+  map fst gps = map fst rgs ->
+  Permutation (concat (map snd gps)) (map p_id (registered rgs)) ->
+  Forall (fun gp => snd gp = [] \/ alloc_width (width_of d) (snd gp) <= rg_width (fst gp)) gps ->
+  exists d', wb d (rev (sort_asc (map p_id (registered rgs)))) (leaf_of (chosen_of (width_of d) gps)) = Some d' /\ d_loose d' = [].
+Proof. exact wb_accepts. Qed.
+
+(* [F] C02 for the closed pass, every state of the coupling invariant and every window of distinct cells of the rows:
+   the pass returns (writeback() never throws), the rows stay legal, no cell is unplaced, the structure still stands for
+   the circuit, and the circuit it exposes is legal *)
+Theorem c02_closed_reordering_exposes_legal : forall c rh nets s cs,
+  std_design c rh -> legal c -> PInv c rh nets s -> NoDup cs -> (forall x, In x cs -> held (ps_d s) x = true) ->
+  exists s' n, run s cs = Some (s', n) /\ Inv (ps_d s') /\ d_loose (ps_d s') = [] /\ Rel c rh (ps_d s') /\
+               legal (write_back c (ps_d s')).
+Proof. exact run_exposes_legal. Qed.
+
+(* [F] C04 clause: the closed pass keeps the orientation invariant OInvM (every polarised cell has the orientation its
+   row prescribes, no cell on a forbidden row) -- the raw place() calls of writeback() satisfy the hypothesis
+   `hist_allowed` of c04_moves_keep_orientation because runRegionChoice tests the polarity (commit cffa2e7, finding F7) *)
+Theorem c02_closed_reordering_keeps_orientation : forall c rh nets s cs,
+  PInv c rh nets s -> OInvM (ps_d s) -> NoDup cs -> (forall x, In x cs -> held (ps_d s) x = true) ->
+  exists s' n, run s cs = Some (s', n) /\ OInvM (ps_d s').
+Proof. exact run_keeps_orientation. Qed.
+
+(* non-vacuity: rows [0,10]x[0,2] (N) and [0,10]x[2,4] (FS); cells 0 (0,0) and 1 (3,0) in the lower row, 2 (1,2) and 3 (6,2,
+   width 3) in the upper row; pins 4 at (9,3) and 5 at (0,0); nets {0, 4}, {3, 5}.  The window [2; 0; 3; 1] gives two regions
+   (the upper row first: cell 2 comes first in the window), the search evaluates 6 leaves (the 2+2 splits, one arrangement
+   each), the best one moves cells 0, 1 to the upper row and 3, 2 to the lower row: value 20 -> 8; the exposed circuit is
+   legal *)
+Definition ex2r : circuit :=
+  {| rows := [mkrow 0 10 0 2 oN; mkrow 0 10 2 4 oFS];
+     cells := [mkcell 0 0 2 2 oN pANY false true; mkcell 3 0 2 2 oN pANY false true; mkcell 1 2 2 2 oN pANY false true;
+               mkcell 6 2 3 2 oN pANY false true; mkcell 9 3 0 0 oN pANY true false; mkcell 0 0 0 0 oN pANY true false] |}.
+Definition ex2r_nets : list (list hpin) :=
+  [[{| pc := 0%nat; pxo := 0; pyo := 0 |}; {| pc := 4%nat; pxo := 0; pyo := 0 |}];
+   [{| pc := 3%nat; pxo := 0; pyo := 0 |}; {| pc := 5%nat; pxo := 0; pyo := 0 |}]].
+Definition ex2r_window : list nat := [2%nat; 0%nat; 3%nat; 1%nat].
+
+Lemma ex2r_std : std_design ex2r 2.
+Proof.
+  split; [lia|]. split; [intros r [<-|[<-|[]]]; reflexivity|].
+  split; [apply CircuitProofs.pairwise_disjointb_spec; vm_compute; reflexivity|].
+  split; [intros r [<-|[<-|[]]]; reflexivity|].
+  intros k Hk. vm_compute in Hk.
+  repeat (destruct Hk as [<-|Hk];
+          [split; [vm_compute; reflexivity|]; split; [exists 1%nat; split; [lia|vm_compute; reflexivity]|left; reflexivity]|]).
+  destruct Hk.
+Qed.
+
+Example c02_closed_reordering_nonvacuous :
+  std_design ex2r 2 /\ legal ex2r /\
+  exists d0, from_circuit ex2r = DOk d0 /\
+    let s0 := {| ps_d := d0; ps_o := init_models ex2r ex2r_nets |} in
+    PInv ex2r 2 ex2r_nets s0 /\ OInvM d0 /\ NoDup ex2r_window /\ (forall x, In x ex2r_window -> held d0 x = true) /\
+    option_map (map (fun e => rg_row (fst e))) (regions_of d0 ex2r_window ex2r_window) = Some [1%nat; 0%nat] /\
+    exists s', run s0 ex2r_window = Some (s', 6%nat) /\ ovalue (ps_o s0) = 20 /\ ovalue (ps_o s') = 8 /\
+      map (fun r => map (fun c => (p_id c, p_x c)) (dr_cells r)) (d_rows (ps_d s')) = [[(3%nat, 0); (2%nat, 3)]; [(1%nat, 0); (0%nat, 2)]] /\
+      map (fun k => (c_x k, c_y k)) (cells (write_back ex2r (ps_d s'))) = [(2, 2); (0, 2); (3, 0); (0, 0); (9, 3); (0, 0)] /\
+      legalb (write_back ex2r (ps_d s')) = true.
+Proof.
+  split; [exact ex2r_std|]. assert (HL : legal ex2r) by (apply CircuitProofs.legalb_correct; vm_compute; reflexivity). split; [exact HL|].
+  eexists. split; [vm_compute; reflexivity|]. cbn zeta.
+  split; [apply init_PInv; [exact ex2r_std|exact HL|vm_compute; reflexivity]|].
+  split; [apply oinvb_spec; vm_compute; reflexivity|].
+  split; [repeat constructor; cbn; intuition discriminate|].
+  split; [intros x [<-|[<-|[<-|[<-|[]]]]]; vm_compute; reflexivity|].
+  split; [vm_compute; reflexivity|].
+  eexists. split; [vm_compute; reflexivity|]. vm_compute. repeat split; reflexivity.
+Qed.
+
+Print Assumptions c02_reordering_write_back_accepted.
+Print Assumptions c02_closed_reordering_exposes_legal.
+Print Assumptions c02_closed_reordering_keeps_orientation.
